@@ -1,7 +1,12 @@
 package checks
 
 import (
+	"encoding/json"
 	"fmt"
+	"os"
+	"path/filepath"
+
+	"github.com/gorilla/websocket"
 	"sort"
 	"strings"
 	"sync"
@@ -14,17 +19,22 @@ import (
 
 // c09Shadow tracks, per host, the connections in registration order.
 type c09Shadow struct {
-	conns  map[string][]*vlib.Conn // all connections the host registered on, in order
+	conns  map[string][]*vlib.Conn // all connections the host ever opened, in order of opening
+	last   map[string]*vlib.Conn   // the connection the host most recently registered on
 	closed map[int]bool
 }
 
 func (s *c09Shadow) latestLive(host string) *vlib.Conn {
-	l := s.conns[host]
-	if len(l) == 0 {
-		return nil
+	c := s.last[host]
+	if c == nil && s.last == nil {
+		// registration order = opening order when no re-registration is tracked
+		l := s.conns[host]
+		if len(l) == 0 {
+			return nil
+		}
+		c = l[len(l)-1]
 	}
-	c := l[len(l)-1]
-	if s.closed[c.ID] {
+	if c == nil || s.closed[c.ID] {
 		return nil
 	}
 	return c
@@ -55,7 +65,7 @@ func c09Sequence(ev *vlib.Evidence, driver string, hosts []*vlib.Identity, seq [
 	if err != nil {
 		panic(err)
 	}
-	sh := &c09Shadow{conns: map[string][]*vlib.Conn{}, closed: map[int]bool{}}
+	sh := &c09Shadow{conns: map[string][]*vlib.Conn{}, last: map[string]*vlib.Conn{}, closed: map[int]bool{}}
 	trace := []string{}
 	for _, e := range seq {
 		hi := int(e[0] - '0')
@@ -68,7 +78,25 @@ func c09Sequence(ev *vlib.Evidence, driver string, hosts []*vlib.Identity, seq [
 				return true
 			}
 			sh.conns[h.NodeID] = append(sh.conns[h.NodeID], c)
+			sh.last[h.NodeID] = c
 			trace = append(trace, fmt.Sprintf("host%d connects on conn#%d", hi, c.ID))
+		case 'S', 'R':
+			// register again on an already open connection: S = the newest open one, R = the oldest open one
+			open := sh.open(h.NodeID)
+			if len(open) == 0 || (e[1] == 'R' && len(open) == 1) {
+				return false
+			}
+			c := open[len(open)-1]
+			if e[1] == 'R' {
+				c = open[0]
+			}
+			var resp pool.ConnectResponse
+			if err := w.Signed(c.AgentSide, h, h.NodeID, "vipnode_connect", &resp, vlib.ConnectReq(true, "geth", "", "")); err != nil {
+				ev.Violate("reconnect-on-open-connection-failed", map[string]interface{}{"err": err.Error(), "sequence": seq})
+				return true
+			}
+			sh.last[h.NodeID] = c
+			trace = append(trace, fmt.Sprintf("host%d registers again on conn#%d", hi, c.ID))
 		case 'O', 'N':
 			open := sh.open(h.NodeID)
 			if len(open) == 0 {
@@ -154,6 +182,7 @@ func c09Racing(ev *vlib.Evidence, driver string, idx int) {
 	hosts := []*vlib.Identity{}
 	var mu sync.Mutex
 	sh := &c09Shadow{conns: map[string][]*vlib.Conn{}, closed: map[int]bool{}}
+	sh.last = nil
 	closedAt := map[int]int64{} // conn id -> logical stamp after Close returned
 	for i := 0; i < nh; i++ {
 		h := vlib.NewIdentity("c09rhost", i)
@@ -272,12 +301,143 @@ func c09Racing(ev *vlib.Evidence, driver string, idx int) {
 	ev.Count("racing-rounds", 1)
 }
 
+// c09Binary: the real pool binary; hosts close their WebSocket in different ways.
+func c09Binary(ev *vlib.Evidence) {
+	bin, err := vlib.BuildVipnode("plain")
+	if err != nil {
+		fmt.Println("HARNESS-ERROR", err)
+		ev.Inconclusive("build")
+		return
+	}
+	dir, _ := os.MkdirTemp("", "verif-c09-")
+	defer os.RemoveAll(dir)
+	addr := fmt.Sprintf("127.0.0.1:%d", vlib.FreePort())
+	p, err := vlib.StartProc(filepath.Join(dir, "pool.log"), []string{"HOME=" + dir}, bin, "pool", "--store=memory", "--bind", addr)
+	if err != nil || !p.WaitListening(addr, 20*time.Second) {
+		ev.Inconclusive("pool-start")
+		return
+	}
+	defer p.Kill(false)
+	nonces := map[string]int64{}
+	nonce := func(id string) int64 {
+		n := nonces[id]
+		if now := time.Now().UnixNano(); n < now {
+			n = now
+		}
+		n += 1000
+		nonces[id] = n
+		return n
+	}
+	call := func(c *websocket.Conn, id *vlib.Identity, rpcID int, method string, arg interface{}) (json.RawMessage, string) {
+		n := nonce(id.NodeID)
+		all, _ := json.Marshal([]interface{}{vlib.RefSign(id.Key, method, id.NodeID, n, arg), id.NodeID, n, arg})
+		c.SetWriteDeadline(time.Now().Add(10 * time.Second))
+		c.WriteMessage(websocket.TextMessage, []byte(fmt.Sprintf(`{"jsonrpc":"2.0","id":%d,"method":%q,"params":%s}`, rpcID, method, all)))
+		for {
+			c.SetReadDeadline(time.Now().Add(20 * time.Second))
+			_, data, err := c.ReadMessage()
+			if err != nil {
+				return nil, "read: " + err.Error()
+			}
+			var m struct {
+				ID     json.RawMessage `json:"id"`
+				Method string          `json:"method"`
+				Result json.RawMessage `json:"result"`
+				Error  *struct {
+					Message string `json:"message"`
+				} `json:"error"`
+			}
+			json.Unmarshal(data, &m)
+			if m.Method != "" {
+				// a reverse call from the pool: acknowledge it
+				c.WriteMessage(websocket.TextMessage, []byte(fmt.Sprintf(`{"jsonrpc":"2.0","id":%s,"result":null}`, m.ID)))
+				continue
+			}
+			if string(m.ID) == fmt.Sprint(rpcID) {
+				if m.Error != nil {
+					return nil, m.Error.Message
+				}
+				return m.Result, ""
+			}
+		}
+	}
+	client := vlib.NewIdentity("c09bclient", 0)
+	cc, err := wsDial(addr)
+	if err != nil {
+		ev.Inconclusive("ws-dial")
+		return
+	}
+	defer cc.Close()
+	if _, e := call(cc, client, 1, "vipnode_connect", vlib.ConnectReq(false, "geth", "", "")); e != "" {
+		ev.Violate("binary:client-connect-failed", map[string]interface{}{"err": e})
+		return
+	}
+	modes := []string{"close-frame-1000", "abrupt", "going-away-1001", "close-frame-1008"}
+	for k := 0; k < vlib.Scale(8, 40); k++ {
+		mode := modes[k%len(modes)]
+		host := vlib.NewIdentity("c09bhost", k)
+		hc, err := wsDial(addr)
+		if err != nil {
+			ev.Inconclusive("ws-dial")
+			return
+		}
+		if _, e := call(hc, host, 1, "vipnode_connect", vlib.ConnectReq(true, "geth", "", "")); e != "" {
+			ev.Violate("binary:host-connect-failed", map[string]interface{}{"err": e})
+			return
+		}
+		// positive control: while connected, the host is called and returned
+		ack := make(chan struct{})
+		go func() {
+			defer close(ack)
+			hc.SetReadDeadline(time.Now().Add(10 * time.Second))
+			_, data, err := hc.ReadMessage()
+			if err != nil {
+				return
+			}
+			var m struct {
+				ID json.RawMessage `json:"id"`
+			}
+			json.Unmarshal(data, &m)
+			hc.WriteMessage(websocket.TextMessage, []byte(fmt.Sprintf(`{"jsonrpc":"2.0","id":%s,"result":null}`, m.ID)))
+		}()
+		res, e := call(cc, client, 100+2*k, "vipnode_peer", pool.PeerRequest{Num: 100})
+		<-ack
+		if e != "" || !strings.Contains(string(res), host.NodeID) {
+			ev.Violate("binary:live-host-not-returned", map[string]interface{}{"mode": mode, "err": e, "result": truncStr(string(res), 300)})
+		}
+		switch mode {
+		case "close-frame-1000":
+			hc.WriteControl(websocket.CloseMessage, websocket.FormatCloseMessage(websocket.CloseNormalClosure, "bye"), time.Now().Add(time.Second))
+			time.Sleep(50 * time.Millisecond)
+			hc.Close()
+		case "going-away-1001":
+			hc.WriteControl(websocket.CloseMessage, websocket.FormatCloseMessage(websocket.CloseGoingAway, ""), time.Now().Add(time.Second))
+			time.Sleep(50 * time.Millisecond)
+			hc.Close()
+		case "close-frame-1008":
+			hc.WriteControl(websocket.CloseMessage, websocket.FormatCloseMessage(websocket.ClosePolicyViolation, "x"), time.Now().Add(time.Second))
+			time.Sleep(50 * time.Millisecond)
+			hc.Close()
+		default:
+			hc.UnderlyingConn().Close()
+		}
+		// give the pool's serve loop time to end and run its disconnect callback (generous, not a verdict)
+		time.Sleep(300 * time.Millisecond)
+		_, e = call(cc, client, 101+2*k, "vipnode_peer", pool.PeerRequest{Num: 100})
+		ev.Case("binary close mode="+mode+fmt.Sprint(k), true)
+		ev.Count("binary-close-cycles:"+mode, 1)
+		if strings.Contains(e, "failed to call") {
+			ev.Violate("binary:closed-host-still-called:"+mode, map[string]interface{}{"mode": mode, "peer_request_error": e})
+		}
+	}
+}
+
 func TestC09(t *testing.T) {
 	ev := vlib.NewEvidence("C09", "exploration",
-		"exhaustive enumeration of event sequences (connect on a new connection / close oldest open / close newest open, per host) up to a length bound over 1 and 2 hosts, with a probe peer request after every event: the connection object receiving vipnode_whitelist and NumRemotes are compared with a shadow registry (host -> most recently registered connection, live iff open); connections are closed the way server.go does (serve loop ends, then CloseRemote); plus racing rounds where closes/reconnects overlap in-flight peer requests (registry vs shadow at quiescence, no call on a connection for a request started after its close); non-trivial = sequence contains a close or a reconnect; distinct = distinct sequences")
+		"exhaustive enumeration of event sequences (connect on a new connection / register again on the newest open connection / register again on the oldest open connection / close oldest open / close newest open, per host) up to a length bound over 1 and 2 hosts, with a probe peer request after every event: the connection object receiving vipnode_whitelist and NumRemotes are compared with a shadow registry (host -> most recently registered connection, live iff open); connections are closed the way server.go does (serve loop ends, then CloseRemote); a black-box pass against the built `vipnode pool` binary where fake hosts register over WebSocket and then close politely (close frame), abruptly or with going-away, after which a peer request must not attempt to call them (the only place server.go's disconnect callback is exercised); plus racing rounds where closes/reconnects overlap in-flight peer requests (registry vs shadow at quiescence, no call on a connection for a request started after its close); non-trivial = sequence contains a close or a reconnect; distinct = distinct sequences")
 	hosts := []*vlib.Identity{vlib.NewIdentity("c09host", 0), vlib.NewIdentity("c09host", 1)}
 	driver := vlib.DriverMemory
-	len1, len2 := vlib.Scale(6, 7), vlib.Scale(4, 5)
+	len1, len2 := vlib.Scale(5, 6), vlib.Scale(3, 4)
 	total := 0
 	run := func(alphabet []string, maxLen int) {
 		seqs := [][]string{}
@@ -290,7 +450,7 @@ func TestC09(t *testing.T) {
 			nt := false
 			connects := map[byte]int{}
 			for _, e := range seq {
-				if e[1] != 'C' {
+				if e[1] != 'C' && e[1] != 'S' {
 					nt = true
 				} else {
 					connects[e[0]]++
@@ -303,12 +463,13 @@ func TestC09(t *testing.T) {
 		})
 		total += len(seqs)
 	}
-	run([]string{"0C", "0O", "0N"}, len1)
-	run([]string{"0C", "0O", "0N", "1C", "1O", "1N"}, len2)
+	run([]string{"0C", "0O", "0N", "0S", "0R"}, len1)
+	run([]string{"0C", "0O", "0N", "0S", "0R", "1C", "1O", "1N", "1S", "1R"}, len2)
 	ev.Note("enumerated_sequences_including_invalid", total)
 	ev.Note("bounds", fmt.Sprintf("1 host: length<=%d; 2 hosts: length<=%d", len1, len2))
 	ev.Exhaustive()
 	ev.Sample(map[string]interface{}{"sequence": []string{"0C", "0C", "0O"}, "meaning": "host0 connects, reconnects on a new connection, its old connection closes; probe after each event"})
+	c09Binary(ev)
 	for _, d := range vlib.Drivers() {
 		d := d
 		parallelCases(vlib.Scale(60, 1500), 16, func(i int) { c09Racing(ev, d, i) })
